@@ -4,7 +4,7 @@ CHECK = dict(
     property='C15', level='exploration',
     families=[('undo', 1.0)],
     budget=dict(quick=50, thorough=900), max_runs=dict(quick=200_000, thorough=5_000_000),
-    rule=('each evaluation = one simulated run: reorg limit L in {1,2,3,5,8,>chain}; daemon-height '
+    rule=('forks found while indexed blocks are still unflushed; the server must not stop on an exception of its own over a fork within the limit (clause server.died); each evaluation = one simulated run: reorg limit L in {1,2,3,5,8,>chain}; daemon-height '
           'trajectory during the initial sync (far ahead / growing / caught block by block); clean stops and '
           'crashes at random points, each followed by a check right after the databases were opened (no undo '
           'row below stored height-L+1, and no row inside [h-L+1,h] that existed before the stop is lost - also when '
@@ -15,7 +15,7 @@ CHECK = dict(
           'non-trivial = the window oracle was evaluated; distinct = distinct interleaving signature'),
     assumptions=['the daemon height is non-decreasing in this family (a block indexed while the daemon was '
                  'higher than at catch-up may legitimately lack undo information)',
-                 'SimDB/SimFS stand in for LevelDB and the file system'],
+                 'a simulated plyvel module (under the real LevelDB class of electrumx.server.storage) and SimFS stand in for the LevelDB engine and the file system'],
     required_probes=['undo.window_checked', 'undo.open_checked', 'fork_exact.delta+0', 'fork_exact.delta+1',
                      'fork_exact.delta-1', 'fork_exact.refused.ChainError', 'undo.open_with_rows_above_tip'],
 )
